@@ -29,9 +29,16 @@ TInit == /\ TLCSet(1, {})
          /\ kcReg = {} /\ kcSec = {} /\ kcScr = FALSE /\ npass = 0
 
 PassOf(e) == [mech |-> e.mech, K |-> ToSet(e.K), I |-> ToSet(e.I), ht |-> e.ht, scr |-> e.scr,
-              reg |-> ToSet(e.reg), sec |-> ToSet(e.sec), fresh |-> e.fresh]
+              reg |-> ToSet(e.reg), sec |-> ToSet(e.sec), fresh |-> e.fresh, ic |-> e.ic]
 
-TStep == /\ l <= Len(Ev)
+\* registering paths / adding secrets / adding scripts to the long-lived keychain
+TKcAdd == /\ l <= Len(Ev) /\ Cur.mech = "kc_add"
+          /\ KcAdd(ToSet(Cur.reg), ToSet(Cur.sec), Cur.scr)
+          /\ Cur.frame = frame /\ Cur.changed = <<>>
+          /\ \A i \in Ins : Pairs(Cur.signed[i]) = signed[i] /\ Cur.valid[i] = valid[i]
+          /\ l' = l + 1 /\ UNCHANGED tid
+TStep == /\ l <= Len(Ev) /\ Cur.mech # "kc_add"
+         /\ Cur.same_as_fresh                    \* a fresh keychain with the same contents signs the same
          /\ SignPassWith(PassOf(Cur), [i \in Ins |-> {e[1] : e \in ToSet(Cur.signed[i])}])
          /\ signed' = [i \in Ins |-> Pairs(Cur.signed[i])]
          /\ valid' = [i \in Ins |-> Cur.valid[i]]
@@ -40,7 +47,7 @@ TStep == /\ l <= Len(Ev)
          /\ Cur.canonical                                       \* every signature present: strict DER, low S
          /\ \A i \in Ins : Cur.reported[i] = Cur.valid[i]       \* is_solution_ok agrees
          /\ l' = l + 1 /\ UNCHANGED tid
-TSpec == TInit /\ [][TStep]_tvars
+TSpec == TInit /\ [][TStep \/ TKcAdd]_tvars
 
 Reached == IF l = Len(Ev) + 1 THEN TLCSet(1, TLCGet(1) \cup {tid}) ELSE TRUE
 \* diagnosis of a rejected trace (harness sends the trace cut after its first rejected event): in the
